@@ -652,6 +652,36 @@ fn main() {
                     fail(format!("line strings {:?} / {:?}: distance {d}, expected 2", a.0, b.0));
                 }
             }
+            // the other dispatching impls: point / line / line string against lines and holed polygons
+            use geo_types::Point;
+            let two_holes = Polygon::new(sq(0.0, 0.0, 20.0, 20.0), vec![sq(2.0, 2.0, 4.0, 4.0), sq(10.0, 10.0, 16.0, 16.0)]);
+            for (p, want) in [(Point::new(13.0, 13.0), 3.0), (Point::new(3.0, 3.5), 0.5), (Point::new(25.0, 10.0), 5.0), (Point::new(7.0, 7.0), 0.0)] {
+                let (d1, d2) = (Euclidean.distance(&p, &two_holes), Euclidean.distance(&two_holes, &p));
+                if d1 != want || d2 != want {
+                    fail(format!("point {:?} vs polygon with two holes: {d1} / {d2}, expected {want}", p));
+                }
+            }
+            let (la, lb) = (Line::new(coord! {x: 0.0, y: 0.0}, coord! {x: 10.0, y: 0.0}), Line::new(coord! {x: 12.0, y: -1.0}, coord! {x: 12.0, y: 5.0}));
+            let (lc, ld) = (Line::new(coord! {x: 4.0, y: 3.0}, coord! {x: 4.0, y: 9.0}), Line::new(coord! {x: 5.0, y: -2.0}, coord! {x: 9.0, y: -6.0}));
+            for (a, b, want) in [(&la, &lb, 2.0), (&lb, &la, 2.0), (&la, &lc, 3.0), (&lc, &la, 3.0), (&la, &ld, 2.0), (&ld, &la, 2.0)] {
+                let d = Euclidean.distance(a, b);
+                if d != want {
+                    fail(format!("lines {:?} / {:?}: distance {d}, expected {want}", a, b));
+                }
+            }
+            let zig: LineString<f64> = vec![(0.0, 0.0), (4.0, 0.0), (4.0, 3.0), (8.0, 0.0)].into();
+            let top = Line::new(coord! {x: 0.0, y: 5.0}, coord! {x: 10.0, y: 5.0});
+            if Euclidean.distance(&top, &zig) != 2.0 || Euclidean.distance(&zig, &top) != 2.0 {
+                fail("line vs line string: expected 2".to_string());
+            }
+            let in_hole = Line::new(coord! {x: 9.0, y: 9.0}, coord! {x: 11.0, y: 9.0});
+            if Euclidean.distance(&in_hole, &outer) != 4.0 || Euclidean.distance(&outer, &in_hole) != 4.0 {
+                fail(format!("line inside a hole: {}", Euclidean.distance(&in_hole, &outer)));
+            }
+            let ls_in_hole: LineString<f64> = vec![(9.0, 9.0), (11.0, 9.0), (11.0, 12.0)].into();
+            if Euclidean.distance(&ls_in_hole, &outer) != 3.0 || Euclidean.distance(&outer, &ls_in_hole) != 3.0 {
+                fail(format!("line string inside a hole: {}", Euclidean.distance(&ls_in_hole, &outer)));
+            }
             println!("ok polygon distance");
         }
         "quick_hull_extremes" => {
